@@ -85,6 +85,10 @@ func runKeepAlive(steps []kaStep, k, req int, unit time.Duration) string {
 			if st.Kind == "ping" {
 				_, err = m.c.Write([]byte{0xc0, 0})
 				wantPongs++
+			} else if st.Kind == "part1" {
+				_, err = m.c.Write([]byte{0xc0}) // the first byte of a PINGREQ, and nothing more
+			} else if st.Kind == "part3" {
+				_, err = m.c.Write([]byte{0x30, 0x0a, 0x00}) // a PUBLISH announcing 10 bytes of which one arrives
 			} else {
 				_, err = m.c.Write(pkt(0x30, append(lp([]byte("ka/t")), 'x')))
 			}
